@@ -18,7 +18,11 @@ def run(c):
               "evaluations = handler steps on real nodes; non-trivial = run went beyond round 1")
     c.assumptions = ["timely delivery is modelled as: deliver to a fixpoint (incl. what consensus/manager.go's gossip would "
                      "send, read from the round states), then fire the earliest timeout",
-                     "node restarts inside prefixes are covered by C05/C14, not here"]
+                     "node restarts inside prefixes: the *-restart configurations stop correct nodes between two handler calls "
+                     "and rebuild them on the surviving database and WAL (real OnStart: state load, catchupReplay); the "
+                     "trace specification's Restart action requires the recovered node to be exactly where the replay of its "
+                     "logged inputs puts it, so a node that disagrees about height, round, lock or proposer after a restart "
+                     "is rejected at the restart event or at the next proposal it handles (crashes INSIDE a handler: C05)"]
     g = c.gotest("node", "TestGenesisNetwork", timeout=1200, tag="fresh genesis networks")
     c.absorb(g)
     # the handlers conform to KardiaNode in the states where progress is decided (stale locks, precommit-wait
@@ -36,3 +40,5 @@ def run(c):
     c01.net_runs(c, cfgs, 60 if th else 6, ("net:liveness", "net:panic"))
     if not th:
         c01.net_runs(c, ["7eq-byz2", "5w-byz"], 2, ("net:liveness", "net:panic"))
+    # restarted nodes (real receive routine + file WAL + catchupReplay) inside the adversarial prefixes
+    c01.net_runs(c, ["4eq-restart", "4w-restart"] + (["5w-restart"] if th else []), 40 if th else 4, ("net:liveness", "net:panic"))
